@@ -359,7 +359,7 @@ def run(c):
     dsl_differential(c.seed, 4 if not thorough else 24, "main")
 
     n = 120 if not thorough else 1500
-    progs, summ = observe(n, c.seed, "logic", corpus=True, hist=40 if not thorough else 400, data=40 if not thorough else 500)
+    progs, summ = observe(n, c.seed, "logic", corpus=True, hist=40 if not thorough else 400, data=47 if not thorough else 507)
     compare(progs, summ, "main")
 
     def search():
